@@ -137,6 +137,30 @@ Theorem C12_jhist_column_preD08_refuted : exists s r, wf s = true /\
 Proof. exact preD08_refuted. Qed.
 Print Assumptions C12_jhist_column_preD08_refuted.
 
+(* maxi / mini (fix D112) are part of the function set of the model, hence of C12_full.  Their derivative rule is the factor
+   [a > b] of the difference d = a - b (resp. b - a), with the TIE CONVENTION 1/2 at d = 0 (symmetric sub-gradient) - exactly what
+   the generated code computes: 0.5*sign(d) + 0.5 with sign(0) = 0.  Away from ties this is the derivative of max/min. *)
+Theorem C12_maxmin_step_values : forall d : Qc,
+  ((0 < d)%Qc -> stepI QcO d = 1%Qc) /\ (d = 0%Qc -> stepI QcO d = mkq 1 2) /\ ((d < 0)%Qc -> stepI QcO d = 0%Qc).
+Proof. exact step_values. Qed.
+Print Assumptions C12_maxmin_step_values.
+
+Theorem C12_maxmin_rule : forall u v : Qc,
+  dfn2I QcO FMax true u v = stepI QcO (u - v)%Qc /\ dfn2I QcO FMax false u v = stepI QcO (v - u)%Qc /\
+  dfn2I QcO FMin true u v = stepI QcO (v - u)%Qc /\ dfn2I QcO FMin false u v = stepI QcO (u - v)%Qc.
+Proof. exact maxmin_rule_unfold. Qed.
+Print Assumptions C12_maxmin_rule.
+
+(* x' = -x + maxi(z, 1/8)*a, z' = x*z - mini(x, z) at (x, z, a) = (1/2, 1/4, 3/2) and at the tie x = z = 1/4 *)
+Example C12_maxmin_example :
+  wf w_max = true /\
+  result_eqb (jac_impl QcO w_max (env [0; 1] [(0, mkq 1 2); (1, mkq 1 4); (2, mkq 3 2)] []))
+             (Ok [[mkq (-1) 1; mkq 3 2]; [mkq 1 4; mkq (-1) 2]] []) = true /\
+  result_eqb (jac_impl QcO w_max (env [0; 1] [(0, mkq 1 4); (1, mkq 1 4); (2, mkq 3 2)] []))
+             (Ok [[mkq (-1) 1; mkq 3 2]; [mkq (-1) 4; mkq (-1) 4]] []) = true.
+Proof. exact w_max_facts. Qed.
+Print Assumptions C12_maxmin_example.
+
 (* ---- K := R (real analysis; these three statements depend on the standard library's real-number axioms) ----
    every function rule D uses (identity -> 1, sigmoid -> s(1-s), exp -> exp, sin -> cos, cos -> -sin, tanh -> 1 - tanh^2) is the
    derivative of the function *)
@@ -145,7 +169,7 @@ Proof. exact fn_derive. Qed.
 Print Assumptions C12_rules_are_derivatives.
 
 (* D is the derivative: v |-> eval (r with x := v) e is differentiable at r x with derivative eval r (D e x), for every expression
-   built from + - * neg ^n, sigmoid, exp, sin, cos, tanh (absv/sign excluded: not differentiable at 0) *)
+   built from + - * neg ^n, sigmoid, exp, sin, cos, tanh (absv/sign and maxi/mini excluded: not differentiable at 0 / at a tie) *)
 Theorem C12_D_correct_real : forall (r : atom -> R) x (e : expr R), smooth e = true ->
   is_derive (fun v => eval RO (fun c => c) (upd r x v) e) (r x) (eval RO (fun c => c) r (D RO e x)).
 Proof. exact D_correct. Qed.
